@@ -474,30 +474,39 @@ def rows_table(rep):
     def rows(st):
         out = []
         for w in (0, 3):
-            def code(I):
-                data = Lst([Tup([times[i], label_var("tag%d" % i), vals[i]]) for i in range(n)])
-                from ..absint import FuncVal
-                res = I.call_function(fn, [FuncVal(mf), data, Lin.num(w), Lin.num(2), True], {})
-                return {"res": res, "input_len": len(data.items)}
-            got, I = run_code(idx, st, code)
-            if got.kind != "ok":
-                out.append(compare_outcomes(I, w, got, Outcome("ok", None)))
-                continue
-            res = got.value["res"].items
-            diff = None
-            if len(res) != n:
-                diff = "row count %d, expected %d" % (len(res), n)
-            else:
-                for i, row in enumerate(res):
-                    r = row.items
-                    if len(r) != 3 or not num_equal(I, r[0], times[i]) or getattr(r[1], "parts", None) != ("tag%d" % i,):
-                        diff = "row %d lost its time or its other columns: %s" % (i, show(row))
-                        break
-            out.append((w, diff is None, diff or "", None))
+            for col in (1, 2, 3):  # the filtered column first after the time, in the middle, last
+                def code(I, col=col):
+                    def row(i):
+                        r = [times[i], label_var("a%d" % i), label_var("b%d" % i), label_var("c%d" % i)]
+                        r[col] = vals[i]
+                        return Tup(r)
+                    data = Lst([row(i) for i in range(n)])
+                    from ..absint import FuncVal
+                    res = I.call_function(fn, [FuncVal(mf), data, Lin.num(w), Lin.num(col), True], {})
+                    return {"res": res, "input_len": len(data.items)}
+                got, I = run_code(idx, st, code)
+                if got.kind != "ok":
+                    out.append(compare_outcomes(I, (w, col), got, Outcome("ok", None)))
+                    continue
+                res = got.value["res"].items
+                diff = None
+                if len(res) != n:
+                    diff = "row count %d, expected %d" % (len(res), n)
+                else:
+                    for i, row in enumerate(res):
+                        r = row.items
+                        ok = len(r) == 4 and num_equal(I, r[0], times[i])
+                        for c, tag in ((1, "a"), (2, "b"), (3, "c")):
+                            if ok and c != col and getattr(r[c], "parts", None) != ("%s%d" % (tag, i),):
+                                ok = False
+                        if not ok:
+                            diff = "row %d lost its time or one of its other columns: %s" % (i, show(row))
+                            break
+                out.append(((w, col), diff is None, diff or "", None))
         return out
 
     run_states(at, rows, tr)
-    tr.done("3 rows (time, tag, value), median filter on the value column")
+    tr.done("3 rows of 4 columns, median filter on column 1, 2 or 3")
 
 
 def run(rep, tier):
